@@ -259,6 +259,15 @@ func (rw *rewriter) block(n ast.Node) {
 			b.Body = rw.stmts(b.Body)
 		case *ast.CommClause:
 			b.Body = rw.stmts(b.Body)
+			if b.Comm != nil && os.Getenv("VERIF_WOKE") == "1" {
+				// (opt-in, VERIF_WOKE=1: it multiplies the schedules and no registered command sets it)
+				// the goroutine that comes out of a select is given a scheduling point before it goes
+				// on: what other goroutines do between the channel operation and its continuation
+				// (e.g. between a result being delivered and the caller returning) is then explored
+				rw.needSched = true
+				site := &ast.BasicLit{Kind: token.STRING, Value: strconv.Quote(rw.site(b.Pos()))}
+				b.Body = append([]ast.Stmt{&ast.ExprStmt{X: schedCall("Woke", site)}}, b.Body...)
+			}
 		}
 		return true
 	})
